@@ -204,6 +204,18 @@ Proof.
   apply IH; [apply N.max_lub; assumption | assumption].
 Qed.
 
+Lemma fold_xmax_ge0 : forall (m : Xref.xmap) a, a <= fold_left (fun a (ke : N * Xref.xentry) => N.max a (fst ke)) m a.
+Proof.
+  induction m as [|ke m IH]; intro a; cbn [fold_left]; [lia|]. eapply N.le_trans; [|apply IH]. lia.
+Qed.
+
+Lemma xmap_max_ge : forall (m : Xref.xmap) ke, In ke m -> fst ke <= xmap_max m.
+Proof.
+  unfold xmap_max. intros m. generalize 0. induction m as [|ke0 m IH]; intros a ke Hin; [contradiction|].
+  cbn [fold_left]. destruct Hin as [->|Hin]; [|apply IH; exact Hin].
+  eapply N.le_trans; [|apply fold_xmax_ge0]. lia.
+Qed.
+
 (* ====================================================================================== *)
 (* the Prev chain                                                                          *)
 (* ====================================================================================== *)
@@ -261,6 +273,21 @@ Proof.
   intros es os lo H. revert lo. induction H as [|[k e] [id o] es os Hat _ IH]; intros lo Hi; [constructor|].
   cbn [xincr] in Hi. destruct Hi as [H1 H2]. destruct Hat as [off [g [_ [Hid _]]]]. cbn [fst snd] in *. subst id.
   constructor; [cbn [fst]; exact H1|]. eapply Forall_impl; [|apply (IH (k + 1) H2)]. intros a Ha. cbn beta in *. lia.
+Qed.
+
+(* keys of the table = numbers of the objects *)
+Lemma obj_at_keys buf es os : Forall2 (obj_at buf) es os -> map fst es = obj_numbers os.
+Proof.
+  induction 1 as [|[k e] [id o] es os [off [g [_ [Hid _]]]] _ IH]; [reflexivity|]. cbn [fst snd] in Hid. subst id.
+  cbn [map fst obj_numbers]. f_equal. exact IH.
+Qed.
+
+Lemma obj_at_forall buf (P : N -> Prop) es os :
+  Forall2 (obj_at buf) es os -> Forall (fun ke : N * Xref.xentry => P (fst ke)) es ->
+  Forall (fun io : oid * obj => P (fst (fst io))) os.
+Proof.
+  induction 1 as [|[k e] [id o] es os [off [g [_ [Hid _]]]] _ IH]; intro H; [constructor|]. inversion H; subst.
+  cbn [fst snd] in *. subst id. constructor; [cbn [fst]; assumption | apply IH; assumption].
 Qed.
 
 (* read_entries over such a map appends the objects in key order *)
